@@ -145,19 +145,19 @@ def install():
     # the wrappers are installed for whatever it does import)
     real_splu, real_spsolve = getattr(spm, 'splu', None), getattr(spm, 'spsolve', None)
 
-    def splu(A):
+    def splu(A, *args, **kwargs):
         try:
-            lu = real_splu(A)
+            lu = real_splu(A, *args, **kwargs)
         except Exception:
             _Log.put('p ')
             raise
         _Log.put('P ')
         return LUProxy(lu)
 
-    def spsolve(A, b):
+    def spsolve(A, b, *args, **kwargs):
         with warnings.catch_warnings():
             warnings.simplefilter('ignore')
-            r = real_spsolve(A, b)
+            r = real_spsolve(A, b, *args, **kwargs)
         _Log.put('Q ')
         return r
     if real_splu is not None:
